@@ -678,6 +678,76 @@ def bound_names(code):
         pass
     return names
 
+def _ids_outside_closures(code):
+    """identifier tokens of a function, leaving out closure parameter lists and closure bodies (their parameters are separate
+    bindings that may reuse a local's name)"""
+    toks = _tok_code(code)
+    out = []; k = 0; n = len(toks)
+    while k < n:
+        t = toks[k]
+        if t.text == '|' and k > 0 and toks[k - 1].text in ('(', ',', '=', 'move'):
+            m = k + 1
+            while m < n and toks[m].text != '|': m += 1
+            m += 1
+            if m < n and toks[m].text == '{': k = match_close(toks, m) + 1
+            else:
+                depth = 0
+                while m < n and not (depth == 0 and toks[m].text in (',', ')', ';')):
+                    if toks[m].text in OPEN: depth += 1
+                    elif toks[m].text in CLOSE: depth -= 1
+                    m += 1
+                k = m
+            continue
+        if t.kind == 'id': out.append(t.text)
+        k += 1
+    return out
+
+def loop_statements(code):
+    """for each loop of the function (in order): the normalised texts of the statements directly in its body, and the same for
+    the function body outside every loop.  Used to notice statements that moved across a loop boundary."""
+    toks = _tok_code(code)
+    try:
+        bo = _find_body_open(toks); bc = match_close(toks, bo)
+    except Exception:
+        return {'loops': [], 'outside': []}
+    def stmts(lo, hi):
+        out = []; cur = []; k = lo
+        while k < hi:
+            t = toks[k]
+            if t.text in OPEN:
+                c = match_close(toks, k)
+                cur += [x.text for x in toks[k:c + 1]]
+                k = c + 1
+                if t.text == '{' and (k >= hi or toks[k].text not in ('else', '.', '?', ';', ')', ',')):
+                    out.append(' '.join(cur)); cur = []
+                continue
+            cur.append(t.text)
+            if t.text == ';':
+                out.append(' '.join(cur)); cur = []
+            k += 1
+        if cur: out.append(' '.join(cur))
+        return out
+    loops = []; outside_ranges = []
+    k = bo + 1; last = bo + 1
+    while k < bc:
+        t = toks[k]
+        if t.kind == 'id' and t.text in ('loop', 'while', 'for') and not (toks[k - 1].text in ('.', '::')):
+            j = k + 1
+            while j < bc and toks[j].text != '{':
+                if toks[j].text in ('(', '['): j = match_close(toks, j)
+                j += 1
+            if j >= bc: break
+            c = match_close(toks, j)
+            loops.append(sorted(stmts(j + 1, c)))
+            outside_ranges.append((last, k)); last = c + 1
+            k = c + 1
+            continue
+        k += 1
+    outside_ranges.append((last, bc))
+    outside = []
+    for lo, hi in outside_ranges: outside += stmts(lo, hi)
+    return {'loops': loops, 'outside': sorted(outside)}
+
 def _apply_renames(fs):
     m = RENAMES.get((fs.file, fs.name, fs.within))
     if not m: return fs
@@ -851,6 +921,18 @@ def assemble_fn(repo, fs, record, canary=None, stub=False, soft=None):
     for anchor, k, lines, prop in fs.before:
         atoks = [t.text for t in _tok_code(anchor)]
         hits = [i for i in starts if [t.text for t in toks[i:i+len(atoks)]] == atoks]
+        if not hits and len(atoks) > 2:
+            # relaxed anchor: the statement may have been re-spelled further to the right (a type annotation dropped, an
+            # argument renamed); shorter and shorter prefixes of the anchor are tried while they still identify k-th of a kind
+            def norm(ts): return [x for x in ts if x != 'mut']
+            for n_ in range(len(atoks) - 1, 1, -1):
+                pre = norm(atoks[:n_])
+                if len(pre) < 2: break
+                cand = [i for i in starts if norm([t.text for t in toks[i:i + n_ + 1]])[:len(pre)] == pre]
+                if cand:
+                    hits = cand
+                    if soft is not None: soft.append('%s: anchor %r matched by its prefix %r' % (fs.name, anchor, ' '.join(pre)))
+                    break
         if k < 1 or k > len(hits):
             if soft is not None:
                 soft.append('%s: hint before %r #%d skipped (anchor lost)' % (fs.name, anchor, k)); continue
@@ -910,8 +992,11 @@ def assemble_fn(repo, fs, record, canary=None, stub=False, soft=None):
         pieces.append((ins, tag))
         last = off
     pieces.append((text[last:], 'CODE'))
-    _bn = bound_names(drop_comments(raw)); _tk = [t.text for t in _tok_code(drop_comments(raw)) if t.kind == 'id']
-    record.append({'key': [fs.file, fs.name, fs.within], 'names': sorted(_bn), 'name_uses': {x: _tk.count(x) for x in _bn}, 'renamed': getattr(fs, 'renamed', {}), 'code': text, 'simple': fs.name, 'fn': (fs.within + '::' if fs.within else '') + fs.name, 'file': fs.file, 'line': line0,
+    _bn = bound_names(drop_comments(raw)); _tk = _ids_outside_closures(drop_comments(raw))
+    _order = []
+    for _x in _tk:
+        if _x in _bn and _x not in _order: _order.append(_x)
+    record.append({'key': [fs.file, fs.name, fs.within], 'names': sorted(_bn), 'name_order': _order, 'name_uses': {x: _tk.count(x) for x in _bn}, 'loop_stmts': loop_statements(drop_comments(raw)), 'renamed': getattr(fs, 'renamed', {}), 'code': text, 'simple': fs.name, 'fn': (fs.within + '::' if fs.within else '') + fs.name, 'file': fs.file, 'line': line0,
                    'sha256': sha, 'rules': fired, 'n_loops': len(loop_idx), 'n_canaries': n_canaries})
     return pieces
 
